@@ -277,7 +277,6 @@ func (c *Cluster) majorityRunsWithout(down map[string]bool) bool {
 		if r == nil || !n.Running() {
 			continue
 		}
-		any = true
 		cf := r.Configuration()
 		voters, up := 0, 0
 		for m, v := range cf.IsVoter {
@@ -289,8 +288,11 @@ func (c *Cluster) majorityRunsWithout(down map[string]bool) bool {
 				up++
 			}
 		}
-		if voters > 0 && up < voters/2+1 {
-			return false
+		if voters > 0 {
+			any = true // (a node that was started empty and knows no configuration says nothing about who is needed)
+			if up < voters/2+1 {
+				return false
+			}
 		}
 	}
 	return any
